@@ -260,3 +260,43 @@ class Conventions:
             dup = cart0.copy()
             dup[1] = dup[0]
             M.raises("conv/rejects/cart-duplicate", lambda: gt(2, dup, lab0, "left"), E + (KeyError,))
+
+
+class AllCartesianOrdersL3:
+    """EXHAUSTIVE over the finite space, evaluated in float64 (labelled bounded, not counted as proved):
+    every one of the 10! orderings of the Cartesian components of an f shell gives the default matrix with its
+    columns permuted accordingly (bit-for-bit: the same arithmetic, only the placement differs).  The exact
+    properties of the default matrix itself are proved in Harmonics."""
+
+    function = "gbasis.spherical.generate_transformation (all Cartesian orders, l = 3)"
+    fp = True
+    fp_only = True
+    bounded = True
+    fp_nsamp = (1, 1)
+
+    def fp_shapes(self, tier):
+        # quick: a slice of the space; thorough: all 10! = 3 628 800 orderings in 64 blocks
+        nblocks = 64
+        return [dict(block=b, nblocks=nblocks, stride=(200 if tier == "quick" else 1)) for b in range(nblocks if tier == "thorough" else 4)]
+
+    shapes = fp_shapes
+
+    def run(self, shape, M):
+        if M.symbolic:
+            return
+        gt = M.mods["gbasis.spherical"].generate_transformation
+        cart0 = np.array(cart_components(3))
+        lab0 = default_sph(3)
+        base = gt(3, cart0, lab0, "left")
+        n = 0
+        bad = None
+        for k, perm in enumerate(itertools.permutations(range(10))):
+            if k % shape["nblocks"] != shape["block"] or (k // shape["nblocks"]) % shape["stride"]:
+                continue
+            p = list(perm)
+            T = gt(3, cart0[p], lab0, "left")
+            n += 1
+            if not np.array_equal(T, base[:, p]):
+                bad = p
+                break
+        M.true("conv/all-cartesian-orders-l3/block%d" % shape["block"], bad is None, "%d orderings checked%s" % (n, "" if bad is None else "; first failing order %s" % bad))
